@@ -26,6 +26,9 @@ import (
 // cyclomatic number m - n + c is at most this.
 const maxCyclomatic = 12
 
+// representations whose guard failed in this case (reported in the buckets)
+var skippedReps []string
+
 type fields struct {
 	n, m                       int
 	dist                       string
@@ -180,7 +183,13 @@ func observe(g6 string, base *gx.G, v gx.Variant, ref refData, zmode int, viol *
 	g := buildAny(v.Rep, base, v.Perm, func(x graph.Graph) { callAll(x, zo) })
 	h := base.Relabel(v.Perm)
 	if !presents(g, h) {
-		// the representation does not show the intended graph: not this property's business
+		if v.Rep == 'V' {
+			// a view must reflect the current state of its base graph
+			fail("view", "a view built over a graph that was edited afterwards does not present the edited graph (N, M, IsEdge, Neighbours, Degrees)")
+		}
+		// otherwise: the representation does not show the intended graph, which is not this
+		// property's business (C05/C06); counted in the buckets
+		skippedReps = append(skippedReps, string(v.Rep))
 		return fields{}, false
 	}
 	defer func() {
@@ -310,6 +319,7 @@ func exec(line string) hx.Result {
 	}
 	c := gx.ParseCase(line)
 	var viol []hx.OracleViolation
+	skippedReps = nil
 	ref := reference(c.Base)
 	vars := append([]gx.Variant{{Rep: 'd', Perm: gx.Identity(c.Base.N)}}, c.Vars...)
 	zsel := map[int]bool{}
@@ -355,6 +365,9 @@ func exec(line string) hx.Result {
 	nontrivial := g.N >= 3 && extra && (ref.ncomps > 1 || nblocks != "1" || ref.f.gi > 0)
 	b := []string{fmt.Sprintf("n=%d", g.N), fmt.Sprintf("components=%d", ref.ncomps), "blocks=" + nblocks, fmt.Sprintf("girth=%d", ref.f.gi),
 		fmt.Sprintf("level=%d", c.Level), fmt.Sprintf("cyclomatic<=%d", gx.Bucket(ref.cyclomatic))}
+	for _, r := range skippedReps {
+		b = append(b, "guard-failed-rep="+r)
+	}
 	// strict part: Girth of the dense/identity variant, compared with the model of Girth at every level
 	return hx.Result{Obs: first.line(c.Level) + fmt.Sprintf(" ## gi=%d", first.gi), Nontrivial: nontrivial, Buckets: b, Viol: viol}
 }
